@@ -223,6 +223,7 @@ func runC13(c *core.Ctx) {
 			return
 		}
 		c.Count("cycles_back_at_baseline", 1)
+		runtime.KeepAlive(w) // reachable until judged: a finalizer closing the descriptor must not hide a leak
 	}
 	c.Max("goroutines_drift", int64(runtime.NumGoroutine()-baseGor))
 	c.Sample(map[string]interface{}{"cycles": cycles, "baseline_inotify_fds": baseIno, "baseline_fds": baseFds, "final_inotify_fds": twin.InotifyFds(), "final_fds": twin.OpenFds()})
